@@ -56,6 +56,35 @@ def gen_poly(rng, quick=True, max_rows=None, max_cols=None, wide=False):
     return out
 
 
+def gen_bigm(rng):
+    """rows as the encoder writes them for integer variables: a boolean switch with a coefficient of the size of the integer
+    column's range next to that column (x - M*z >= b, M*z - x >= b, …), thresholds inside the cut-off part of the range —
+    row extremes far beyond the 16-bit default range although every declared bound is inside it"""
+    nb = rng.randint(1, 2); nw = rng.randint(1, 2)
+    bnds = [[0, 1]] * nb + [rng.choice([[0, 32767], [-32768, 32767], [0, 30000], [-20000, 20000], [0, 100]]) for _ in range(nw)]
+    order = list(range(nb + nw)); rng.shuffle(order)
+    bnds = [list(bnds[j]) for j in order]
+    nc = len(bnds)
+    rows = []
+    for _ in range(rng.randint(1, 3)):
+        cs = [0] * nc
+        for j, (lo, hi) in enumerate(bnds):
+            if (lo, hi) == (0, 1):
+                cs[j] = rng.choice([0, 1, -1, 20000, -20000, 40000, -40000, 32768, -65535, 1000, -67])
+            else:
+                cs[j] = rng.choice([0, 1, 1, -1, -1, 2, -3, 1000])
+        lo_ = sum(min(c * b[0], c * b[1]) for c, b in zip(cs, bnds))
+        hi_ = sum(max(c * b[0], c * b[1]) for c, b in zip(cs, bnds))
+        t = rng.random()
+        if t < 0.1: b = hi_ + 1
+        elif t < 0.25: b = hi_
+        elif t < 0.35: b = lo_
+        else:
+            b = rng.choice([rng.randint(lo_, hi_), -20000, 20000, 12767, -12767, 0, hi_ - rng.randint(1, 40000)])
+        rows.append([b, cs])
+    return {"bnds": bnds, "rows": rows}
+
+
 def gen_chain(rng, quick=True):
     """an implication chain over boolean columns: one row forces a first column, every further row forces one more
     column once the previous one is known — reducable_rows_and_columns needs one round of its loop per link.  Rows and the
